@@ -689,13 +689,31 @@ func (w *world) blOp() {
 		if rng.Intn(3) == 0 {
 			w.call(users[rng.Intn(len(users))], cBridge, znn, z0, "bl-redeem-again", definition.RedeemUnwrapMethodName, u.tx, u.log)
 		}
-	case op == 34: // revoke by the administrator (or somebody else), now and then followed by a redeem
+	case op == 34: // revoke by the administrator (or somebody else), mostly of an OPEN registered request, mostly followed by a
+		// redeem once the delay has passed (so that the revocation is the only reason left to refuse it)
 		if len(bl.unwraps) == 0 {
 			return
 		}
 		u := bl.unwraps[rng.Intn(len(bl.unwraps))]
+		var open *definition.UnwrapTokenRequest
+		if reqs, err := definition.GetUnwrapTokenRequests(w.storageOf(types.BridgeContract)); err == nil && rng.Intn(4) != 0 {
+			var os []*definition.UnwrapTokenRequest
+			for _, r := range reqs {
+				if r.Redeemed == 0 && r.Revoked == 0 {
+					os = append(os, r)
+				}
+			}
+			if len(os) > 0 {
+				open = os[rng.Intn(len(os))]
+				u = blUnwrap{open.TransactionHash, open.LogIndex}
+			}
+		}
 		w.call(adminOr(), cBridge, znn, z0, "bl-revoke", definition.RevokeUnwrapRequestMethodName, u.tx, u.log)
-		if rng.Intn(2) == 0 {
+		if rng.Intn(3) != 0 {
+			if open != nil {
+				w.waitUntil(func() bool { return w.nd.FrontierHeight() >= open.RegistrationMomentumHeight+6 }, 8)
+				w.out.Count("locks:redeem-of-revoked-after-the-delay")
+			}
 			w.call(kp, cBridge, znn, z0, "bl-redeem-after-revoke", definition.RedeemUnwrapMethodName, u.tx, u.log)
 		}
 	case op == 35: // halt / unhalt by the administrator; redeems meanwhile
